@@ -38,7 +38,7 @@ def oracle_c05(rec: I.Rec):
     nact = 0
     for si, st in enumerate(rec.steps):
         ev = st["ev"]
-        if ev[0] in ("wait", "shutdown"):
+        if ev[0] in ("wait", "shutdown", "waitcancel"):
             for fid, o in ev[1]:
                 x = ctx.sub_point[fid]
                 if o[0] == "ok":
@@ -87,11 +87,11 @@ def oracle_c05(rec: I.Rec):
             for a in asks:
                 if a[1] <= 0:
                     errs.append(("ask_nonpositive", f"step {si}: learner.ask({a[1]}) called"))
-        if ev[0] in ("wait", "shutdown"):
+        if ev[0] in ("wait", "shutdown", "waitcancel"):
             pass
     # stop
     why = rec.steps[-1]["snap"]["why"][0] if rec.steps else rec.first_snap["why"][0]
-    cancel_injected = any((c[0] == "w" and c[1] == "cancel") or c[0] == "s" for c in rec.choices)
+    cancel_injected = any((c[0] == "w" and c[1] == "cancel") or c[0] in ("s", "t") for c in rec.choices)
     if why == "NoWorkers":
         return errs
     if why == "GoalMet":
@@ -164,7 +164,7 @@ def oracle_c06(rec: I.Rec):
     for si, st in enumerate(rec.steps):
         ev = st["ev"]
         ok_now = {}
-        if ev[0] in ("wait", "shutdown"):
+        if ev[0] in ("wait", "shutdown", "waitcancel"):
             processed = ev[1]
             # the for loop stops at the first raise: later entries were not consumed in this step
             cut = len(processed)
